@@ -463,6 +463,202 @@ fn set_item(name: &str, ctxs: &[[String; 3]]) -> serde_json::Value {
     serde_json::json!({"name": name, "modes": ["render"], "ctxs": ctxs.iter().map(|c| c.to_vec()).collect::<Vec<_>>()})
 }
 
+// ------------------------------------------------------------------------------ directed streams
+
+const INT_EXTREMES: [&str; 30] = [
+    "i128:170141183460469231731687303715884105727",
+    "i128:-170141183460469231731687303715884105728",
+    "i128:170141183460469231731687303715884105726",
+    "i128:-170141183460469231731687303715884105727",
+    "u128:340282366920938463463374607431768211455",
+    "u128:170141183460469231731687303715884105728",
+    "i64:9223372036854775807",
+    "i64:-9223372036854775808",
+    "u64:9223372036854775808",
+    "u64:18446744073709551615",
+    "i128:18446744073709551616",
+    "i128:-18446744073709551616",
+    "i128:-9223372036854775809",
+    "u64:4294967296",
+    "i64:2147483648",
+    "i64:-2147483649",
+    "i64:0",
+    "i64:1",
+    "i64:-1",
+    "i64:2",
+    "i64:-2",
+    "i64:3",
+    "i64:5",
+    "i64:36",
+    "f:7ff8000000000000",
+    "f:7ff0000000000000",
+    "f:43e0000000000000",
+    "f:3fe0000000000000",
+    "s:32",
+    "N",
+];
+
+/// c = {"b": [1,2,3,4,5], "c": "héllo wörld", "d": {"x": 1, "y": 2}, "e": bytes}
+const CONTAINER: &str = "M4 s:62 A5 i64:1 i64:2 i64:3 i64:4 i64:5 s:63 s:68c3a96c6c6f2077c3b6726c64 s:64 M2 s:78 i64:1 s:79 i64:2 s:65 y:68c3a96c6c6f";
+
+const SPREAD_VALUES: [&str; 20] = [
+    "M2 i64:1 s:78 B1 s:79",
+    "M1 u64:7 s:78",
+    "M1 i128:170141183460469231731687303715884105727 s:78",
+    "M1 B0 N",
+    "M0",
+    "M2 s:6e616d65 s:78 s:76 i64:5",
+    "M8 s:61 i64:1 s:62 i64:2 s:63 i64:3 s:64 i64:4 s:65 i64:5 s:66 i64:6 s:67 i64:7 s:76 i64:8",
+    "M8 i64:1 i64:1 i64:2 i64:2 i64:3 i64:3 i64:4 i64:4 i64:5 i64:5 i64:6 i64:6 s:61 i64:7 s:76 i64:8",
+    "M3 s:76 U s:6e616d65 N s:78 y:ff",
+    "M1 s:626f6479 s:78",
+    "M1 s:72657374 s:78",
+    "M1 s: s:78",
+    "M2 s:76 M1 i64:1 s:78 s:6e616d65 A2 U N",
+    "A2 i64:1 i64:2",
+    "A1 M1 i64:1 s:78",
+    "N",
+    "U",
+    "s:78",
+    "i64:1",
+    "y:ff00",
+];
+
+struct Directed {
+    group: &'static str,
+    /// body of the template (variables a, b: the operands under test; c: the container)
+    body: String,
+    /// candidate values for a and b
+    values: &'static [&'static str],
+}
+
+fn directed_templates() -> Vec<Directed> {
+    let mut out = Vec::new();
+    let ints: &[&str] = &[
+        // slices: start / stop / step from the context
+        "{{ c.b[1::a] }}", "{{ c.b[-2::a] }}", "{{ c.c[2::a] }}", "{{ c.b[a:] }}", "{{ c.b[:a] }}", "{{ c.b[a:b] }}", "{{ c.b[a:b:a] }}",
+        "{{ c.b[::a] }}", "{{ c.c[a:b] }}", "{{ c.c[::a] }}", "{{ c.c[b::a] }}", "{{ c.b[b::a] }}", "{{ c.b[4:0:a] }}", "{{ c.b[a:b:b] }}",
+        "{{ c.c[-1:a:b] }}", "{{ c.e[a:b] }}", "{{ (c.b | reverse)[a::b] }}", "{% for x in c.b[a:b:2] %}{{ x }}{% endfor %}",
+        // indexing
+        "{{ c.b[a] }}", "{{ c.c[a] }}", "{{ c.d[a] }}", "{{ c.b[a + b] }}", "{{ c.b?.x[a] }}", "{{ c.e[a] }}",
+        // range
+        "{{ range(end=a) | length }}", "{{ range(start=a, end=b) | length }}", "{{ range(start=0, end=5, step_by=a) }}",
+        "{{ range(start=a, end=b, step_by=a) | length }}", "{{ range(start=b, end=a, step_by=-1) | length }}",
+        "{% for i in range(start=a, end=b) %}{% if loop.index > 3 %}{% break %}{% endif %}{{ i }}{{ loop.index0 }}{% endfor %}",
+        "{% for i in range(start=a, end=b, step_by=b) %}{% if loop.index > 2 %}{% break %}{% endif %}{{ i }}{% endfor %}",
+        // integer kwargs of the built-in filters and tests
+        "{{ c.c | truncate(length=a) }}", "{{ c.c | truncate(length=a, end=b) }}", "{{ c.b | nth(n=a) }}", "{{ c.c | indent(width=a) }}",
+        "{{ a | round(precision=b) }}", "{{ 2.5 | round(precision=a) }}", "{{ a | round(method=\"ceil\", precision=b) }}", "{{ a | round(method=\"floor\") }}",
+        "{{ \"ff\" | int(base=a) }}", "{{ a | int(base=b) }}", "{{ a | int }}", "{{ a | float }}", "{{ a | abs }}", "{{ a | str }}", "{{ a | pluralize }}",
+        "{{ c.b | join(sep=a) }}", "{{ c.d | get(key=a) }}", "{{ a | default(value=b) }}", "{{ a | length }}", "{{ c.c | split(pat=a) }}",
+        "{{ c.c | replace(from=a, to=b) }}", "{{ a is divisible_by(divisor=b) }}", "{{ a is odd }}{{ a is even }}", "{{ c.c | wordcount + a }}",
+        "{{ c.b | first + a }}", "{{ [a, b, 1] | sort }}", "{{ [a, b, 1, a] | unique }}", "{{ [a, b] | first }}",
+        "{{ [{\"k\": a}, {\"k\": b}] | sort(attribute=\"k\") }}", "{{ [{\"k\": a}, {\"k\": b}] | group_by(attribute=\"k\") }}", "{{ [{\"k\": a}, {\"k\": b}] | unique(attribute=\"k\") }}",
+        // arithmetic and comparisons
+        "{{ a + b }}", "{{ a - b }}", "{{ a * b }}", "{{ a / b }}", "{{ a // b }}", "{{ a % b }}", "{{ a ** b }}", "{{ -a }}", "{{ -(-a) - 1 }}",
+        "{{ a < b }}{{ a >= b }}", "{{ a == b }}{{ a != b }}", "{{ a in c.b }}{{ a in c.d }}{{ a in c.c }}", "{{ a ~ b }}", "{{ a + 1 }}{{ a - 1 }}{{ a * 2 }}{{ a * -1 }}",
+        "{{ 1 - a }}{{ 0 - a }}{{ 2 ** a }}{{ a ** 2 }}{{ 1 // a }}{{ 1 % a }}", "{{ (a if a > b else b) - b }}",
+        // loops over and with these values
+        "{% for x in a %}{{ x }}{% endfor %}", "{{ [x * a for x in c.b] }}", "{{ [x for x in c.b if x < a] }}", "{% for x in c.b %}{{ loop.index + a }}{{ loop.length - a }}{% endfor %}",
+        // typed component arguments
+        "{{ <dint n={a}/> }}{{ <dint n={b}/> }}", "{{ <dflt x={a}/> }}", "{{ <dstr s={a}/> }}",
+    ];
+    for t in ints {
+        out.push(Directed { group: "int-operand", body: t.to_string(), values: &INT_EXTREMES });
+    }
+    let spreads: &[&str] = &[
+        "{{ <dsp {...a}/> }}", "{{ <dsp {...a} v={1}/> }}", "{{ <dsp v={1} {...a} {...b}/> }}", "{% <dbody {...a}> %}x{% </dbody> %}",
+        "{% <dbody v={1} {...a}> %}{{ <dsp {...b}/> }}{% </dbody> %}", "{{ <dcl {...a}/> }}", "{{ <dcl name=\"n\" {...a} age={3}/> }}",
+        "{{ {...a} }}", "{{ {...a, \"k\": 1, ...b} }}", "{{ [...a] }}", "{{ [...a, ...b, 1] }}", "{{ {\"x\": {...a}, ...{\"y\": [...b]} } }}",
+        "{% set m = {...a} %}{{ <dsp {...m}/> }}", "{{ <dsp {...a.v}/> }}", "{{ <dsp {...{\"v\": a} }/> }}", "{{ <dopen name=\"n\" {...a}/> }}",
+        "{% for k, v in {...a, ...b} %}{{ k }}{{ v }}{% endfor %}", "{{ {...a} | keys }}{{ {...a} | values }}{{ {...a} | length }}",
+        "{{ <dsp {...a} {...a} {...b}/> }}{{ <dtyped {...a}/> }}",
+    ];
+    for t in spreads {
+        out.push(Directed { group: "spread", body: t.to_string(), values: &SPREAD_VALUES });
+    }
+    out
+}
+
+fn directed_helpers() -> (String, String) {
+    (
+        "dhelpers".to_string(),
+        "{% component dsp(v=1, name=\"x\") %}[{{ v }}{{ name }}]{% endcomponent dsp %}\
+         {% component dbody(v=1) %}<{{ v }}{{ body }}>{% endcomponent dbody %}\
+         {% component dcl(name, age=1) %}({{ name }}{{ age }}){% endcomponent dcl %}\
+         {% component dopen(name, ...rest) %}({{ name }}{{ rest | length }}{{ rest }}){% endcomponent dopen %}\
+         {% component dtyped(v: integer = 1, name: string = \"s\") %}{{ v }}{{ name }}{% endcomponent dtyped %}\
+         {% component dint(n: integer = 1) %}{{ n + 1 }}{{ n - 1 }}{% endcomponent dint %}\
+         {% component dflt(x: float = 1.5) %}{{ x * 2 }}{% endcomponent dflt %}\
+         {% component dstr(s: string = \"s\") %}{{ s | upper }}{% endcomponent dstr %}"
+            .to_string(),
+    )
+}
+
+/// `break` / `continue` that would leave a capture open: the engine must refuse these at add time;
+/// one that is accepted must pass the checker and leave the stacks empty.
+fn capture_break_templates() -> Vec<(String, bool)> {
+    let mut out = Vec::new();
+    let wraps: [&str; 6] = [
+        "K",
+        "{% if a %}K{% endif %}",
+        "{% if a %}x{% else %}K{% endif %}",
+        "{% if a %}x{% elif b %}K{% else %}y{% endif %}",
+        "{% if a %}{% if b %}K{% endif %}{% endif %}",
+        "{% if a %}x{% elif b %}y{% else %}{% if a %}K{% endif %}{% endif %}",
+    ];
+    let captures: [&str; 6] = [
+        "{% filter upper %}pW q{% endfilter %}",
+        "{% set v %}pW q{% endset %}{{ v }}",
+        "{% <dbody> %}pW q{% </dbody> %}",
+        "{% set v | upper %}pW q{% endset %}{{ v }}",
+        "{% filter upper %}{% set v %}pW q{% endset %}{{ v }}{% endfilter %}",
+        "{% if a %}{% filter lower %}pW q{% endfilter %}{% endif %}",
+    ];
+    let loops: [&str; 5] = [
+        "{% for i in c.b %}[C]{% endfor %}|tail",
+        "{% for k, v in c.d %}[C]{% endfor %}|tail",
+        "{% for i in c.b %}[C]{% else %}e{% endfor %}|tail",
+        "{% for i in c.b %}{% for j in c.b %}[C]{% endfor %}{{ i }}{% endfor %}|tail",
+        "{% for i in c.b %}{% if i > 1 %}[C]{% endif %}{% endfor %}|tail",
+    ];
+    for l in loops {
+        for c in captures {
+            for w in wraps {
+                for k in ["{% break %}", "{% continue %}"] {
+                    out.push((l.replace("C", &c.replace("W", &w.replace("K", k))), false));
+                }
+            }
+        }
+    }
+    // legal relatives (a loop inside the capture): must be accepted and be balanced
+    for k in ["{% break %}", "{% continue %}"] {
+        out.push((format!("{{% filter upper %}}{{% for i in c.b %}}{{% if a %}}{k}{{% endif %}}{{{{ i }}}}{{% endfor %}}{{% endfilter %}}|tail"), true));
+        out.push((format!("{{% for j in c.b %}}{{% set v %}}{{% for i in c.b %}}{{% if a %}}{k}{{% endif %}}{{{{ i }}}}{{% endfor %}}{{% endset %}}{{{{ v }}}}{{% endfor %}}|tail"), true));
+        out.push((format!("{{% for j in c.b %}}{{% <dbody> %}}{{% for i in c.b %}}{{% if b %}}{k}{{% endif %}}{{{{ i }}}}{{% endfor %}}{{% </dbody> %}}{{% if a %}}{k}{{% endif %}}{{% endfor %}}|tail"), true));
+    }
+    out
+}
+
+/// Histories: a provider and a user are registered, then the provider is registered again
+/// WITHOUT the item the user refers to. (provider, user, provider-without, render, what)
+fn history_sets() -> Vec<(&'static str, Vec<(&'static str, &'static str)>, Vec<(&'static str, &'static str)>, Vec<(&'static str, &'static str)>, &'static str)> {
+    let lib = ("lib", "{% component hc(v=1) %}[{{ v }}{{ body }}]{% endcomponent hc %}");
+    let lib_without = ("lib", "{% component other(v=1) %}x{% endcomponent other %}");
+    vec![
+        ("component/inline-call", vec![lib], vec![("page", "{{ <hc v={2}/> }}")], vec![lib_without], "page"),
+        ("component/body-call", vec![lib], vec![("page", "{% <hc> %}x{% </hc> %}")], vec![lib_without], "page"),
+        ("component/call-in-child-block", vec![lib, ("base", "{% block k %}b{% endblock %}")], vec![("page", "{% extends \"base\" %}{% block k %}{{ <hc/> }}{% endblock %}")], vec![lib_without], "page"),
+        ("component/call-in-component-body", vec![lib], vec![("page", "{% component outer() %}{{ <hc v={3}/> }}{% endcomponent outer %}{{ <outer/> }}")], vec![lib_without], "page"),
+        ("component/call-in-argument", vec![lib], vec![("page", "{{ 1 | default(value=<hc/>) }}{{ <hc v={ <hc/> }/> }}")], vec![lib_without], "page"),
+        ("component/call-in-included", vec![lib], vec![("inc", "{{ <hc/> }}"), ("page", "{% include \"inc\" %}")], vec![lib_without], "page"),
+        ("component/provider-emptied", vec![lib], vec![("page", "{{ <hc/> }}")], vec![("lib", "nothing here")], "page"),
+        ("component/renamed", vec![lib], vec![("page", "{% for i in [1] %}{{ <hc v={i}/> }}{% endfor %}")], vec![("lib", "{% component hc2(v=1) %}[{{ v }}]{% endcomponent hc2 %}")], "page"),
+        ("block/child-top-level", vec![("base", "B{% block k %}b{% endblock %}")], vec![("page", "{% extends \"base\" %}{% block k %}c{% endblock %}")], vec![("base", "B no block")], "page"),
+        ("block/grandchild", vec![("base", "B{% block k %}b{% endblock %}"), ("mid", "{% extends \"base\" %}")], vec![("page", "{% extends \"mid\" %}{% block k %}c{{ super() }}{% endblock %}")], vec![("base", "B{% block other %}o{% endblock %}")], "page"),
+    ]
+}
+
 // ------------------------------------------------------------------------------ replay
 
 fn run_replay(path: &str) {
@@ -475,6 +671,28 @@ fn run_replay(path: &str) {
         .unwrap_or_default();
     for (n, s) in &templates {
         println!("template {n}: {s}");
+    }
+    if let Some(then) = j.get("then").and_then(|t| t.as_array()) {
+        // a history: `templates` first, then `then` on the same instance
+        let then: Vec<(String, String)> = then.iter().map(|p| (p[0].as_str().unwrap().to_string(), p[1].as_str().unwrap().to_string())).collect();
+        let r = catch(std::panic::AssertUnwindSafe(|| {
+            let mut t = Tera::default();
+            let first = t.add_raw_templates(templates.iter().map(|(n, s)| (n.as_str(), s.as_str()))).map_err(|e| e.to_string());
+            let second = t.add_raw_templates(then.iter().map(|(n, s)| (n.as_str(), s.as_str()))).map_err(|e| e.to_string());
+            let mut renders = Vec::new();
+            if second.is_ok() {
+                for name in t.get_template_names().map(|s| s.to_string()).collect::<Vec<_>>() {
+                    let (class, detail, problem) = observe(&t, &name, &Mode::Render, &Context::new());
+                    renders.push(format!("{name}: {class} {detail} {}", problem.unwrap_or_default()));
+                }
+            }
+            (first, second, renders)
+        }));
+        for (n, s) in &then {
+            println!("then template {n}: {s}");
+        }
+        println!("history: {r:?}");
+        return;
     }
     if j.get("expect_registration_error").is_some() {
         println!("registration: {:?}", build(&templates).map(|_| "accepted").map_err(|e| e.lines().next().unwrap_or("").to_string()));
@@ -778,6 +996,223 @@ fn main() {
                 format!("the bytecode checker rejects a chunk the real compiler produced ({} {}): {}", o.tpl, o.chunk, answers[*i]),
                 serde_json::json!({"templates": tpls, "chunk_listing": o.listing.join(" "), "detail": {"stage": "wellformed-checker", "answer": answers[*i], "chunk": o.chunk}}),
             );
+        }
+    }
+
+    // ---- 3b. directed streams: 128-bit extremes at every integer operand, spreads of odd maps
+    {
+        let dirs = directed_templates();
+        let mut templates = vec![directed_helpers()];
+        let mut items = Vec::new();
+        let container = CONTAINER.to_string();
+        for (k, d) in dirs.iter().enumerate() {
+            // autoescaped and not, alternately
+            let name = if k % 2 == 0 { format!("d{k}.html") } else { format!("d{k}") };
+            templates.push((name.clone(), d.body.clone()));
+            let mut ctxs: Vec<Vec<String>> = Vec::new();
+            for a in d.values {
+                let n_b = env.budget(4, d.values.len());
+                for j in 0..n_b {
+                    let b = if env.quick() {
+                        match j { 0 => "i64:1", 1 => d.values[0], _ => d.values[rng.below(d.values.len())] }
+                    } else {
+                        d.values[j]
+                    };
+                    ctxs.push(vec![a.to_string(), b.to_string(), container.clone()]);
+                }
+            }
+            report.count_n(&format!("directed.{}.contexts", d.group), ctxs.len() as u64);
+            items.push(serde_json::json!({"name": name, "modes": ["render"], "ctxs": ctxs}));
+        }
+        report.count_n("directed.templates", dirs.len() as u64);
+        match build(&templates) {
+            Err(e) => {
+                // find the culprit so that the stream is not silently lost
+                let mut bad = Vec::new();
+                for t in templates.iter().skip(1) {
+                    if let Err(e1) = build(&[templates[0].clone(), t.clone()]) {
+                        bad.push(format!("{}: {}", t.1, e1.lines().next().unwrap_or("")));
+                    }
+                }
+                report.notes.push(format!("directed stream does not register ({}): {:?}", e.lines().next().unwrap_or(""), bad.iter().take(4).collect::<Vec<_>>()));
+                report.violation("model-mismatch", "the directed templates of the C07 harness do not register".into(), serde_json::json!({"detail": {"stage": "generator:directed", "bad": bad}}));
+            }
+            Ok(_) => {
+                let per = 12usize;
+                let batches: Vec<Batch> = items.chunks(per).map(|it| Batch { common: serde_json::json!({"templates": templates}), items: it.to_vec() }).collect();
+                let results = run_batches(CHILD_FLAG, &batches, std::time::Duration::from_secs(600), threads);
+                let mut seen_d: HashSet<String> = HashSet::new();
+                for (bi, r) in results.iter().enumerate() {
+                    for (i, lines) in &r.results {
+                        let d = &dirs[bi * per + i];
+                        for l in lines {
+                            if let Some(st) = l.strip_prefix("S ") {
+                                let v: Vec<u64> = st.split(' ').filter_map(|x| x.parse().ok()).collect();
+                                if v.len() == 3 {
+                                    report.evaluations += v[0] + v[1] + v[2];
+                                    report.oracle_checks += v[0] + v[1] + v[2];
+                                    report.count_n(&format!("render.directed-{}.ok", d.group), v[0]);
+                                    report.count_n(&format!("render.directed-{}.err", d.group), v[1]);
+                                    report.count_n(&format!("render.directed-{}.panic", d.group), v[2]);
+                                }
+                            } else if let Some(v) = l.strip_prefix("V ") {
+                                if let Ok(j) = serde_json::from_str::<serde_json::Value>(v) {
+                                    report.oracle_failures += 1;
+                                    let key = format!("{}{}", d.body, j["problem"].as_str().unwrap_or("").chars().take(30).collect::<String>());
+                                    if seen_d.insert(key) && report.violations.len() < 10 {
+                                        report.violation(
+                                            "property",
+                                            format!("rendering `{}` ({}): {}", d.body, d.group, j["problem"].as_str().unwrap_or("")),
+                                            serde_json::json!({"templates": [templates[0].clone(), (format!("d{}", bi * per + i), d.body.clone())], "render": format!("d{}", bi * per + i), "mode": "render", "context": j["ctx"], "detail": j,
+                                                "rerun": "harness/target/release/c07 --replay <this file>"}),
+                                        );
+                                    }
+                                }
+                            }
+                        }
+                    }
+                    for (i, reason) in &r.culprits {
+                        let d = &dirs[bi * per + i];
+                        // confirm on its own with a generous limit
+                        let b = Batch { common: serde_json::json!({"templates": templates, "limit_secs": 30}), items: vec![batches[bi].items[*i].clone()] };
+                        let again = run_batch(CHILD_FLAG, 640_000 + bi * per + i, &b, std::time::Duration::from_secs(120), 0);
+                        if let Some((_, r2)) = again.culprits.first() {
+                            report.oracle_failures += 1;
+                            report.violation(
+                                "property",
+                                format!("rendering `{}` ({}) does not return an answer: {r2} (first seen: {reason})", d.body, d.group),
+                                serde_json::json!({"templates": [templates[0].clone(), (format!("d{}", bi * per + i), d.body.clone())], "render": format!("d{}", bi * per + i), "mode": "render",
+                                    "context": batches[bi].items[*i]["ctxs"][0], "contexts_tried": batches[bi].items[*i]["ctxs"], "detail": {"reason": r2}}),
+                            );
+                        } else {
+                            report.count("render.slow_item_finished_when_run_alone");
+                        }
+                    }
+                }
+            }
+        }
+    }
+
+    // ---- 3c. break / continue that would leave a capture open: refused at add time, or balanced
+    {
+        let helpers = directed_helpers();
+        let tpls = capture_break_templates();
+        let mut accepted: Vec<(String, String, bool)> = Vec::new();
+        for (k, (src, legal)) in tpls.iter().enumerate() {
+            report.evaluations += 1;
+            let name = format!("cb{k}");
+            match build(&[helpers.clone(), (name.clone(), src.clone())]) {
+                Err(e) if e.starts_with("panic") => {
+                    report.oracle_failures += 1;
+                    report.violation("property", format!("registration panics on `{src}`: {}", e.chars().take(160).collect::<String>()),
+                        serde_json::json!({"templates": [helpers.clone(), (name, src.clone())], "expect_registration_error": true}));
+                }
+                Err(_) => {
+                    report.count("capture_break.refused_at_registration");
+                    if *legal {
+                        report.notes.push(format!("a legal break/continue template is refused: {src}"));
+                    }
+                }
+                Ok(_) => {
+                    report.count("capture_break.accepted");
+                    accepted.push((name, src.clone(), *legal));
+                }
+            }
+        }
+        report.count_n("capture_break.templates", tpls.len() as u64);
+        // accepted ones: the checker must accept every chunk and every render must leave the stacks empty
+        let ctxs: Vec<Vec<String>> = ["B1", "B0"].iter().flat_map(|a| ["B1", "B0"].iter().map(move |b| vec![a.to_string(), b.to_string(), CONTAINER.to_string()])).collect();
+        for (name, src, legal) in &accepted {
+            let set = vec![helpers.clone(), (name.clone(), src.clone())];
+            let Ok(t) = build(&set) else { continue };
+            let mut checker_says = Vec::new();
+            for (cn, l) in hooks::stored_chunks_wire(&t, name).unwrap_or_default() {
+                if let Ok(a) = driver::run_batch(&exe, &[format!("wf {}", l.join(" "))]) {
+                    report.model_comparisons += 1;
+                    if a[0] != "ok" {
+                        checker_says.push(format!("{cn}: {}", a[0]));
+                    }
+                }
+            }
+            let b = Batch { common: serde_json::json!({"templates": set}), items: vec![serde_json::json!({"name": name, "modes": ["render"], "ctxs": ctxs})] };
+            let r = run_batch(CHILD_FLAG, 630_000, &b, std::time::Duration::from_secs(60), 0);
+            let problem = r.culprits.first().map(|c| c.1.clone()).or_else(|| {
+                r.results.iter().flat_map(|(_, ls)| ls.iter()).find_map(|l| l.strip_prefix("V ").and_then(|v| serde_json::from_str::<serde_json::Value>(v).ok()).map(|j| format!("{} (context a={} b={})", j["problem"].as_str().unwrap_or(""), j["ctx"][0], j["ctx"][1])))
+            });
+            report.oracle_checks += 1;
+            if let Some(p) = problem {
+                report.oracle_failures += 1;
+                if report.violations.iter().filter(|v| v.summary.contains("leaves a capture")).count() < 3 {
+                    report.violation(
+                        "property",
+                        format!("`{src}` is accepted although its break/continue leaves a capture open: {p}{}", if checker_says.is_empty() { String::new() } else { format!("; the bytecode checker rejects it ({})", checker_says.join(", ")) }),
+                        serde_json::json!({"templates": set, "render": name, "mode": "render", "context": ["B1", "B1", CONTAINER], "detail": {"problem": p, "checker": checker_says},
+                            "rerun": "harness/target/release/c07 --replay <this file>"}),
+                    );
+                }
+            } else if !checker_says.is_empty() {
+                report.model_disagreements += 1;
+                report.violation(
+                    "model-mismatch",
+                    format!("the bytecode checker rejects the accepted template `{src}` ({}) but its renders are balanced", checker_says.join(", ")),
+                    serde_json::json!({"templates": set, "detail": {"stage": "wellformed-checker", "checker": checker_says, "legal": legal}}),
+                );
+            }
+        }
+    }
+
+    // ---- 3d. histories: the provider of a referenced item is registered again without it
+    for (what, providers, users, without, render) in history_sets() {
+        report.evaluations += 1;
+        report.oracle_checks += 1;
+        let own = |v: &Vec<(&str, &str)>| -> Vec<(String, String)> { v.iter().map(|(n, s)| (n.to_string(), s.to_string())).collect() };
+        let outcome = catch(std::panic::AssertUnwindSafe(|| {
+            let mut t = Tera::default();
+            let add = |t: &mut Tera, v: &Vec<(String, String)>| t.add_raw_templates(v.iter().map(|(n, s)| (n.as_str(), s.as_str())));
+            // two orders: provider then user, and both at once
+            if let Err(e) = add(&mut t, &own(&providers)) {
+                return Err(format!("setup: provider refused: {e}"));
+            }
+            if let Err(e) = add(&mut t, &own(&users)) {
+                return Err(format!("setup: user refused: {e}"));
+            }
+            // sanity: replacing the provider by itself is fine
+            if let Err(e) = add(&mut t, &own(&providers)) {
+                return Err(format!("setup: re-adding the same provider refused: {e}"));
+            }
+            match add(&mut t, &own(&without)) {
+                Err(_) => Ok(None),
+                Ok(()) => {
+                    // accepted: what does rendering do now?
+                    let mut seen = Vec::new();
+                    for name in t.get_template_names().map(|s| s.to_string()).collect::<Vec<_>>() {
+                        let (class, detail, problem) = observe(&t, &name, &Mode::Render, &Context::new());
+                        seen.push(format!("{name}: {class} {detail} {}", problem.unwrap_or_default()));
+                    }
+                    Ok(Some(seen))
+                }
+            }
+        }));
+        let all: Vec<(String, String)> = own(&providers).into_iter().chain(own(&users)).collect();
+        match outcome {
+            Err(p) => {
+                report.oracle_failures += 1;
+                report.violation("property", format!("history {what}: panic while registering: {p}"), serde_json::json!({"templates": all, "then": own(&without), "detail": {"history": what}}));
+            }
+            Ok(Err(e)) => {
+                report.count("history.setup_invalid");
+                report.notes.push(format!("history {what}: {}", e.lines().next().unwrap_or("")));
+            }
+            Ok(Ok(None)) => report.count("history.dangling_reference_refused"),
+            Ok(Ok(Some(seen))) => {
+                report.oracle_failures += 1;
+                report.violation(
+                    "property",
+                    format!("history {what}: after registering {:?} and {:?}, registering {:?} again without the referenced item is accepted; renders then: {}", providers, users, without, seen.join(" | ").chars().take(300).collect::<String>()),
+                    serde_json::json!({"templates": all, "then": own(&without), "render": render, "mode": "render", "context": ["-", "-", "-"], "detail": {"history": what, "renders": seen},
+                        "note": "replay registers `templates`, then `then`, in this order"}),
+                );
+            }
         }
     }
 
